@@ -99,6 +99,8 @@ inductive Op where
       `entry(k).or_insert_with(|| v)`, `entry(k).key()` -/
   | entrem (k : Nat) | entins (k n : Nat) | entget (k : Nat) | entmut (k n : Nat)
   | entwith (k n : Nat) | entkey (k : Nat)
+  /-- `InlineTable::get_or_insert(k, n)` (the other dialects have no such method) -/
+  | goi (k n : Nat)
   | idx (k : Nat) | idxmut (k : Nat) | idxset (k n : Nat)
   | retain | sort | sortby
   | extend (args : List Nat)
@@ -154,14 +156,18 @@ structure Fix where
   inlineEntry : Bool
   /-- `Table::into_iter` skips `Item::None` -/
   intoIter : Bool
+  /-- `InlineTable::get_or_insert` stores the value over an `Item::None` instead of panicking
+      ("non-value type in inline table") -/
+  goi : Bool
   deriving DecidableEq, Repr
 
-def asImplemented : Fix := ⟨false, false, false, false, false, false⟩
-def repaired : Fix := ⟨true, true, true, true, true, true⟩
-/-- /repo after the four small repairs (filters in `impl TableLike for InlineTable`, in
-    `Table::{insert, insert_formatted, remove, remove_entry}`, in `Table::into_iter`, and
-    `Entry::or_insert{,_with}` overwriting an `Item::None`); the two `entry()` classifications stay -/
-def afterPatches : Fix := ⟨true, true, true, false, false, true⟩
+def asImplemented : Fix := ⟨false, false, false, false, false, false, false⟩
+def repaired : Fix := ⟨true, true, true, true, true, true, true⟩
+/-- /repo after the five small repairs (filters in `impl TableLike for InlineTable`, in
+    `Table::{insert, insert_formatted, remove, remove_entry}`, in `Table::into_iter`,
+    `Entry::or_insert{,_with}` overwriting an `Item::None`, and `InlineTable::get_or_insert` doing the
+    same); the two `entry()` classifications stay -/
+def afterPatches : Fix := ⟨true, true, true, false, false, true, true⟩
 /-- the configuration the driver runs: must describe /repo as it is -/
 def current : Fix := afterPatches
 
@@ -259,6 +265,20 @@ def orInsertStep (fx : Fix) (d : Dialect) (m : Items) (k n : Nat) : Ret × Items
   | some s => (.slot s, m)
   | none => (.slot (.item (.int n)), imPush m k (.item (.int n)))
 
+/-- `InlineTable::get_or_insert(k, n)`:
+    `let item = self.items.entry(key).or_insert(Item::None); if item.is_none() { *item = Item::Value(n) }`
+    then `item.as_value_mut().expect("non-value type in inline table")`.
+    A value is returned as it is; an absent key is appended; an `Item::None` left by `item[k]` gets the
+    value at its reserved position.  Before the repair (`fx.goi = false`) the code was
+    `self.items.entry(key).or_insert(Item::Value(n)).as_value_mut().expect(…)`: the `Item::None` was an
+    occupied entry, `as_value_mut()` of it `None`, and the `expect` panicked (nothing stored). -/
+def goiStep (fx : Fix) (m : Items) (k n : Nat) : Ret × Items :=
+  match imGet m k with
+  | some .placeholder =>
+    if fx.goi then (.slot (.item (.int n)), imSet m k (.item (.int n))) else (.panic, m)
+  | some s => (.slot s, m)
+  | none => (.slot (.item (.int n)), imPush m k (.item (.int n)))
+
 def step (fx : Fix) (d : Dialect) (m : Items) : Op → Ret × Items
   | .ins k n =>
     let r := imInsert m k (.item (.int n))
@@ -328,6 +348,11 @@ def step (fx : Fix) (d : Dialect) (m : Items) : Op → Ret × Items
       | _ => if fx.entOcc then (.bool false, m) else (.bool true, m)
     | some _ => (.bool true, m)
     | none => (.bool false, m)
+  | .goi k n =>
+    match d with
+    -- only `InlineTable` itself has the method (`Table` and `dyn TableLike` do not)
+    | .inline => goiStep fx m k n
+    | _ => (.na, m)
   | .idx k =>
     match vis (imGet m k) with
     | some s => (.slot s, m)
